@@ -194,11 +194,12 @@ theorem equal_strings_stored_once {d : Doc} {s : List Byte} (hnd : (d.strings.ma
         simp only [Option.map_some, hb]
         rfl
 
-/-- `saveString s` when no node holds the bytes `s` and the allocator does not fail: exactly one block of the
+/-- `saveString s` when no node holds the bytes `s`, the length is within the limit `maxStrLen` (`StringNode::maxLength`)
+    and the allocator does not fail: exactly one block of the
     documented size `length + overhead` is requested (one log entry, one call), nothing else happens to the pool, and
-    one node with one reference is added. -/
+    one node with one reference is added. (Beyond the limit no block is requested at all: `new_string_too_long_no_block`.) -/
 theorem new_string_one_block {d : Doc} {s : List Byte} (hnew : ∀ x ∈ d.strings, x.bytes ≠ s)
-    (hok : d.pl.failsAt (d.pl.calls + 1) = false) :
+    (hlen : s.length ≤ d.maxStrLen) (hok : d.pl.failsAt (d.pl.calls + 1) = false) :
     (d.saveString s).1 = some d.nextNode ∧
     (d.saveString s).2.pl.log = s!"A{s.length + d.strOverhead}" :: d.pl.log ∧
     (d.saveString s).2.pl.calls = d.pl.calls + 1 ∧
@@ -207,13 +208,24 @@ theorem new_string_one_block {d : Doc} {s : List Byte} (hnew : ∀ x ∈ d.strin
     (d.saveString s).2.overflowed = d.overflowed := by
   have hf : d.strings.find? (·.bytes == s) = none := by
     rw [List.find?_eq_none]; intro x hx; simpa using hnew x hx
-  rw [saveString_new hf, hok]
+  rw [saveString_short hf hlen, hok]
   refine ⟨rfl, ?_, rfl, rfl, rfl, rfl, rfl⟩
   show (d.pl.alloc (s.length + d.strOverhead)).2.log = _
   show s!"A{s.length + d.strOverhead}{if d.pl.failsAt (d.pl.calls + 1) then "!" else ""}" :: d.pl.log = _
   rw [hok]
   show (toString "A" ++ toString (s.length + d.strOverhead) ++ "") :: d.pl.log = _
   rw [String.append_empty]
+
+/-- `saveString s` when no node holds the bytes `s` and `s` is longer than `maxStrLen`: no block is requested (the
+    allocator state - log, call counter, pools, free list - is untouched), no node is added, the overflow flag is set. -/
+theorem new_string_too_long_no_block {d : Doc} {s : List Byte} (hnew : ∀ x ∈ d.strings, x.bytes ≠ s)
+    (hlong : d.maxStrLen < s.length) :
+    (d.saveString s).1 = none ∧ (d.saveString s).2.pl = d.pl ∧ (d.saveString s).2.strings = d.strings ∧
+    (d.saveString s).2.overflowed = true := by
+  have hf : d.strings.find? (·.bytes == s) = none := by
+    rw [List.find?_eq_none]; intro x hx; simpa using hnew x hx
+  rw [saveString_long hf hlong]
+  exact ⟨rfl, rfl, rfl, rfl⟩
 
 /-- `derefString` of an existing node: with reference count 1 (or less) the node is removed and exactly one `D` is
     logged; with a count above 1 the count is decremented and the allocator is left alone. Nothing else changes. -/
@@ -475,7 +487,7 @@ example : (e4.saveString hi).1 = some 0 ∧ (e4.saveString hi).2.pl = e4.pl ∧ 
   exact ⟨a, b, by rw [c']; decide +kernel⟩
 /-- `new_string_one_block` on `e4`: a different string costs one block of `1 + 15` bytes -/
 example : (e4.saveString [0x61]).1 = some 1 ∧ (e4.saveString [0x61]).2.pl.log = s!"A{1 + 15}" :: e4.pl.log := by
-  obtain ⟨a, b, _⟩ := new_string_one_block (d := e4) (s := [0x61]) (by decide +kernel) (by decide +kernel)
+  obtain ⟨a, b, _⟩ := new_string_one_block (d := e4) (s := [0x61]) (by decide +kernel) (by decide +kernel) (by decide +kernel)
   exact ⟨a, b⟩
 /-- `string_released_with_last_user` on `e4`: the only reference goes, one `D` -/
 example : (e4.derefString 0).pl.log = "D" :: e4.pl.log ∧ (e4.derefString 0).strings = [] := by
